@@ -252,6 +252,20 @@ func checkProperty(cfg *RunCfg, prog *Program, id string, start time.Time) (int,
 		verifDir = "/verif"
 	}
 	keys, lemmas := contractsForProperty(prog, id)
+	autoC09 := map[string]bool{}
+	if id == "C09" {
+		// every function that ranges over a map is part of the claim, contract or not
+		have := map[string]bool{}
+		for _, k := range keys {
+			have[k] = true
+		}
+		for _, k := range prog.mapRangeFuncs() {
+			if !have[k] {
+				keys = append(keys, k)
+				autoC09[k] = true
+			}
+		}
+	}
 	if len(keys)+len(lemmas) == 0 && len(sweepsFor(id)) == 0 {
 		fmt.Fprintf(os.Stderr, "ENGINE-ERROR: no contract carries property %s\n", id)
 		return 2, nil
@@ -280,7 +294,7 @@ func checkProperty(cfg *RunCfg, prog *Program, id string, start time.Time) (int,
 			continue
 		}
 		if fi.Con != nil && fi.Con.Trusted {
-			results[k] = &UnitResult{Key: k, Reg: NewRegistry(), Notes: []string{"trusted contract (not verified)"}}
+			results[k] = &UnitResult{Key: k, Reg: NewRegistry(), Notes: []string{"TRUSTED contract, assumed without proof: " + k}}
 			order = append(order, k)
 			continue
 		}
@@ -324,6 +338,8 @@ func checkProperty(cfg *RunCfg, prog *Program, id string, start time.Time) (int,
 			switch {
 			case o.Kind == "cover":
 				sel = append(sel, o)
+			case id == "C09" && !direct[k]:
+			case id == "C09" && autoC09[k] && o.Kind != "commute":
 			case isSafetyKind(o.Kind):
 				// safety obligations count for C13 for functions that claim C13
 				if id == "C13" && direct[k] {
@@ -625,5 +641,49 @@ func runReplay(cfg *RunCfg, f string) int {
 		return 2
 	}
 	fmt.Println(string(data))
+	return 0
+}
+
+// runSafetySweep: diagnostic, not a MANIFEST command.
+func runSafetySweep(cfg *RunCfg) int {
+	prog := loadOrDie(cfg)
+	var keys []string
+	for k := range prog.Funcs {
+		keys = append(keys, k)
+	}
+	sort.Strings(keys)
+	var results []*UnitResult
+	for _, k := range keys {
+		r := VerifyFunc(prog, prog.Funcs[k], cfg.Tier)
+		var sel []*Obligation
+		for _, o := range r.Obligations {
+			if isSafetyKind(o.Kind) {
+				sel = append(sel, o)
+			}
+		}
+		r.Obligations = sel
+		results = append(results, r)
+	}
+	scfg := cfg.solverCfg("sweep")
+	scfg.TimeoutS = 3
+	solveAll(results, scfg)
+	for _, r := range results {
+		bad := 0
+		for _, o := range r.Obligations {
+			if o.Status != "discharged" {
+				bad++
+			}
+		}
+		status := "ok"
+		if r.EngineError != "" {
+			status = "ENGINE: " + r.EngineError
+		}
+		fmt.Printf("%-55s safety=%d open=%d %s\n", r.Key, len(r.Obligations), bad, status)
+		for _, o := range r.Obligations {
+			if o.Status != "discharged" {
+				fmt.Printf("      %-10s %s  [%s]\n", o.Status, o.Desc, o.Pos)
+			}
+		}
+	}
 	return 0
 }
